@@ -1535,6 +1535,10 @@ def _broadcast_arithmetic(op):
     """
     def _broadcast_arithmetic_impl(self, other):
         if (self.space.is_power_space and other in self.space[0]):
+            if op.startswith('__i') and any(xi is other for xi in self):
+                # In-place update with one of the own parts: all parts
+                # must see its original value
+                other = other.copy()
             results = []
             for xi in self:
                 res = getattr(xi, op)(other)
